@@ -139,6 +139,18 @@ CHECKS["C10"] = {
     "note": TB + "; 'one outer pair' read lexically; values ending in an escaped delimiter only checked for the restore law",
 }
 
+CHECKS["C11"] = {
+    "text": "Interpolate.tla defines default parsing on top of BibLibrary (first-definition string index, lexical enclosing "
+            "test, replacement by the string's source value, one strip) and states ResolvedExactly independently (bare word = "
+            "key of the first @string with that key anywhere in the document); MC_Interp enumerates one entry with 1-2 fields "
+            "over the 8-value reference pool among every sequence of up to 2 (quick: 6.2e3 documents) / 3 of five @string "
+            "templates (second definition, other case, chain, concatenation) in every position; every document is parsed "
+            "with the default stack in two spellings and compared field by field (value, recorded keys, strings, wrapped "
+            "duplicates untouched); random reference-heavy derivations with colliding keys go through the TLC oracle.",
+    "ref": "6/C11", "technique": "TLA+ spec (Interpolate.tla over BibLibrary/BibSplitter) model-checked with TLC + bounded-exhaustive replay + TLC oracle on random derivations",
+    "note": TB + "; one-level resolution; content = source value minus one enclosing layer",
+}
+
 NOT_APPLICABLE = {}
 for _e in ENGINES:
     _e["serves_properties"] = sorted(CHECKS)
